@@ -211,3 +211,35 @@ Proof.
   apply in_map_iff in Hin. destruct Hin as [x [Hx Hin]]. inversion Hx; subst x.
   apply in_rev in Hin. destruct Hi as [Hsegs _]. apply Hsegs. assumption.
 Qed.
+
+(* ---------- C16: an item stays pending across everything that is not its URI line ---------- *)
+Definition not_uri (r : res line) : Prop := match r with Ok (LUri _) => False | _ => True end.
+Lemma step_keeps_partial : forall s l s', ps_partial s = true -> not_uri (Ok l) -> step s l = Ok s' -> ps_partial s' = true.
+Proof.
+  intros s l s' Hp Hn H. unfold step in H. destruct l as [t| |u]; [| inversion H; subst; exact Hp | destruct Hn].
+  destruct (in_kinds (kind_of t) media_rejects); [discriminate|].
+  destruct t; cbn [step_tag set_seg set_b] in H; try discriminate;
+    try (inversion H; subst; cbn [ps_partial]; first [exact Hp | reflexivity]).
+  (* EXT-X-DISCONTINUITY-SEQUENCE: two guards *)
+  destruct (negb (is_nil (ps_segs s))); [discriminate|]. destruct (ps_hasdisc s); [discriminate|].
+  inversion H; subst; cbn [ps_partial]; exact Hp.
+Qed.
+Lemma run_keeps_partial : forall rest s s', ps_partial s = true -> Forall not_uri rest -> run_lines s rest = Ok s' -> ps_partial s' = true.
+Proof.
+  induction rest as [|r rest IH]; intros s s' Hp Hn H.
+  - inversion H; subst; exact Hp.
+  - cbn [run_lines] in H. inversion Hn as [|? ? Hr Hrest]; subst. destruct r as [l| |]; cbn [bind] in H; try discriminate.
+    destruct (step s l) as [s1| |] eqn:E; cbn [bind] in H; try discriminate.
+    apply (IH s1 s' (step_keeps_partial s l s1 Hp Hr E) Hrest H).
+Qed.
+(* a text cut anywhere behind a segment tag whose URI line has not come yet is rejected, whatever tags or comments follow *)
+Theorem pending_item_rejected : forall b0 ls t rest p,
+  is_segment_tag t = true -> Forall not_uri rest -> parse_items b0 (ls ++ Ok (LTag t) :: rest) = Ok p -> False.
+Proof.
+  intros b0 ls t rest p Ht Hrest H.
+  destruct (parse_items_inv _ _ _ H) as [s [Hr [Hp _]]].
+  rewrite run_lines_app in Hr. apply bind_ok in Hr. destruct Hr as [s1 [_ Hr]].
+  cbn [run_lines bind] in Hr. apply bind_ok in Hr. destruct Hr as [s2 [Hstep Hr]].
+  pose proof (step_segment_tag_partial _ _ _ Ht Hstep) as P2.
+  rewrite (run_keeps_partial rest s2 s P2 Hrest Hr) in Hp. discriminate.
+Qed.
